@@ -112,6 +112,9 @@ struct StreamIt
 };
 
 // Multi-pass iterators; bounds-checked against [0, len]. Category selected by `Tag`.
+// The element at iteration position p lives at memory index len-1-p (the source array is built
+// in reverse), so these iterators are genuinely *not* contiguous: a bulk copy from &*first reads
+// the wrong bytes, whatever category the library believes the iterator has.
 template <typename T, typename Ref, typename Tag>
 struct WalkIt
 {
@@ -138,9 +141,9 @@ struct WalkIt
     }
     if (pos < RangeLog::RL_MAX)
       ++log->deref[pos];
-    return static_cast<Ref> (base[pos]);
+    return static_cast<Ref> (base[log->len - 1 - pos]);
   }
-  pointer operator-> () const { return &base[pos]; }
+  pointer operator-> () const { return &base[log->len - 1 - pos]; }
 
   WalkIt& operator++ ()
   {
